@@ -925,7 +925,11 @@ func init() {
 				}
 			}
 			if g.R.Chance(0.5) {
-				u.NewAskPrice = coinP(g.askDenom(v, md("denom")), g.price())
+				den := g.askDenom(v, md("denom"))
+				if mk := v.MarketByID(o.MarketId); mk != nil && g.R.Chance(0.5) {
+					den = mk.BankDenom // a price-only update: same denomination as before (allowed or not by now)
+				}
+				u.NewAskPrice = coinP(den, g.price())
 			}
 			if g.R.Chance(0.4) {
 				u.NewExpiration = g.expiration(v, md("expiration"))
@@ -1009,7 +1013,11 @@ func init() {
 		return &markettypes.MsgAddAllowedDenom{Authority: auth(a), BankDenom: d, DisplayDenom: disp + Pick(g.R, []string{"", "", "x"}), Exponent: 6}
 	})
 	regKind("RemoveDenom", true, func(g *Gen, a *Actor, v *Snapshot, mode int) sdk.Msg {
-		return &markettypes.MsgRemoveAllowedDenom{Authority: auth(a), Denom: g.anyDenom()}
+		d := g.anyDenom()
+		if len(v.AllowedDenoms) > 0 && g.R.Chance(0.7) {
+			d = v.AllowedDenoms[g.R.Intn(len(v.AllowedDenoms))].BankDenom // one that is allowed (and may have markets and open orders)
+		}
+		return &markettypes.MsgRemoveAllowedDenom{Authority: auth(a), Denom: d}
 	})
 	regKind("SetFeeParams", true, func(g *Gen, a *Actor, v *Snapshot, mode int) sdk.Msg {
 		vals := g.P.feeRateValues()
